@@ -49,6 +49,12 @@ class Cfg:
         self.syntaxes = ["proto2", "proto3", "editions"]
         self.size = 3               # rough number of top-level messages / fields per message
         self.rel_names = True       # spell type references relative to an enclosing scope / package sometimes
+        # adversarial declaration orders (default off: the random stream and the output of the generator are exactly
+        # what they were before this knob existed): several extension / reserved ranges per message and enum,
+        # declared out of ascending order, adjacent, single numbers, `to max`, negative enum ranges; the body
+        # statements of a message (fields, oneofs, range and reserved-name statements) in shuffled order, so that
+        # field numbers, names and ranges are not ascending in the descriptor
+        self.adversarial_order = False
         self.__dict__.update(kw)
 
 
@@ -155,7 +161,10 @@ class _Gen:
             self.emit(ind + 1, "%s = %d;" % (vn, n))
         if alias:
             self.emit(ind + 1, "%s_ALIAS = %d;" % (name.upper(), nums[-1]))
-        if rng.chance(1, 5):
+        if self.cfg.adversarial_order:
+            if rng.chance(1, 2):
+                self.adv_enum_ranges(ind + 1)
+        elif rng.chance(1, 5):
             self.emit(ind + 1, "reserved %d to %d;" % (100, 100 + rng.range(0, 5)))
         if rng.chance(1, 6):
             if self.f.syntax == "editions":
@@ -414,9 +423,18 @@ class _Gen:
                 self.gen_message(ind + 1, fqn, depth + 1)
         number = 0
         nfields = rng.range(0, cfg.size + 1)
+        adv = cfg.adversarial_order
+        chunks, mark = [], len(f.lines)
+
+        def grab():
+            # adversarial order only: take the statement(s) just emitted out of the body; they are put back shuffled
+            if adv:
+                chunks.append(f.lines[mark:])
+                del f.lines[mark:]
         for _ in range(nfields):
             number += rng.range(1, 3)
             self.gen_field(ind + 1, number)
+            grab()
         # oneofs
         for _ in range(1 if rng.chance(1, 3) else 0):
             self.emit(ind + 1, "oneof o%d {" % self.uid())
@@ -424,21 +442,119 @@ class _Gen:
                 number += 1
                 self.gen_field(ind + 2, number, in_oneof=True)
             self.emit(ind + 1, "}")
-        if extendable:
-            self.emit(ind + 1, "extensions 1000 to 1999;")
-        if rng.chance(1, 6):
-            self.emit(ind + 1, "reserved %d, %d to %d;" % (500, 510, 510 + rng.range(0, 9)))
-        if rng.chance(1, 8):
-            if f.syntax == "editions":
-                self.emit(ind + 1, "reserved old_%d;" % self.uid())
-            else:
-                self.emit(ind + 1, 'reserved "old_%d";' % self.uid())
+            grab()
+        if adv:
+            for stmt in self.adv_msg_ranges(extendable, number):
+                self.emit(ind + 1, stmt)
+                grab()
+        else:
+            if extendable:
+                self.emit(ind + 1, "extensions 1000 to 1999;")
+            if rng.chance(1, 6):
+                self.emit(ind + 1, "reserved %d, %d to %d;" % (500, 510, 510 + rng.range(0, 9)))
+        for _ in range(rng.range(1, 3) if adv and rng.chance(1, 4) else 1):
+            if rng.chance(1, 8) or (adv and rng.chance(1, 3)):
+                if f.syntax == "editions":
+                    self.emit(ind + 1, "reserved old_%d;" % self.uid())
+                else:
+                    self.emit(ind + 1, 'reserved "old_%d";' % self.uid())
+                grab()
+        if adv:
+            for ch in rng.shuffle(chunks):
+                f.lines.extend(ch)
         # nested extend block
         if cfg.extensions and f.syntax != "proto3" and rng.chance(1, 5):
             self.gen_extend(ind + 1)
         self.emit(ind, "}")
         self.scope_stack.pop()
         return fqn
+
+    # ---- adversarial declaration orders (Cfg.adversarial_order)
+    @staticmethod
+    def _range_text(s, e, top):
+        if s == e:
+            return "%d" % s
+        return "%d to %s" % (s, "max" if e == top else "%d" % e)
+
+    def _unsorted(self, segs):
+        """A permutation of segs that is not ascending (whenever there are two or more)."""
+        segs = self.rng.shuffle(segs)
+        if len(segs) > 1 and segs == sorted(segs):
+            k = self.rng.below(len(segs) - 1)
+            segs[k], segs[k + 1] = segs[k + 1], segs[k]
+        return segs
+
+    def _statements(self, kw, segs, top):
+        """segs as one, two or three `kw ...;` statements (declaration order = descriptor order)."""
+        out = []
+        segs = list(segs)
+        while segs:
+            k = self.rng.range(1, len(segs))
+            out.append("%s %s;" % (kw, ", ".join(self._range_text(s, e, top) for s, e in segs[:k])))
+            segs = segs[k:]
+        return out
+
+    def adv_msg_ranges(self, extendable, last_number):
+        """Disjoint number ranges above the message's field numbers: lengths 1 / 2 / 10 / 100 / ..., gaps 0 (adjacent)
+        and up, one of them 1000-1999 when the message is extendable (extensions are numbered from 1000), sometimes
+        one reaching `max`; each is an extension range (extendable messages) or a reserved range; both lists are
+        declared in a non-ascending order."""
+        rng = self.rng
+        top = 536870911
+        segs, cur = [], last_number + rng.range(1, 4)
+        for _ in range(rng.range(1, 4)):
+            ln = rng.choice([1, 1, 2, 3, 10, 100])
+            if cur + ln - 1 >= 1000:
+                break
+            segs.append((cur, cur + ln - 1))
+            cur += ln + rng.choice([0, 0, 1, 2, 7, 100])
+        fixed = (1000, 1999)
+        segs.append(fixed)
+        cur = 2000 + rng.choice([0, 0, 1, 16999, 17001, 100000])
+        for _ in range(rng.range(0, 3)):
+            ln = rng.choice([1, 1, 2, 1000, 1000000])
+            segs.append((cur, cur + ln - 1))
+            cur += ln + rng.choice([0, 0, 1, 5, 1000, 10000000])
+        if rng.chance(1, 3):
+            segs.append((cur, top))
+        ext, rsv = [], []
+        for sg in segs:
+            if sg == fixed:
+                (ext if extendable else rsv).append(sg) if (extendable or rng.chance(1, 2)) else None
+            elif extendable and rng.chance(1, 2):
+                ext.append(sg)
+            elif rng.chance(3, 4):
+                rsv.append(sg)
+        out = []
+        if ext:
+            out += self._statements("extensions", self._unsorted(ext), top)
+        if rsv:
+            out += self._statements("reserved", self._unsorted(rsv), top)
+        return out
+
+    def adv_enum_ranges(self, ind):
+        """Reserved ranges of an enum outside the value numbers (-3 .. 12): negative and positive, adjacent, single
+        numbers, the int32 extremes, declared in a non-ascending order."""
+        rng = self.rng
+        top = 2147483647
+        segs = []
+        if rng.chance(1, 2):
+            cur = -rng.choice([2147483648, 100000, 500, 60])
+            for _ in range(rng.range(1, 3)):
+                ln = rng.choice([1, 1, 2, 10])
+                if cur + ln - 1 >= -4:
+                    break
+                segs.append((cur, cur + ln - 1))
+                cur += ln + rng.choice([0, 0, 1, 3, 20])
+        cur = rng.choice([13, 14, 100, 1000])
+        for _ in range(rng.range(1, 4)):
+            ln = rng.choice([1, 1, 2, 6, 1000])
+            segs.append((cur, cur + ln - 1))
+            cur += ln + rng.choice([0, 0, 1, 3, 1000000])
+        if rng.chance(1, 3):
+            segs.append((cur, top))
+        for st in self._statements("reserved", self._unsorted(segs), top):
+            self.emit(ind, st)
 
     def gen_extend(self, ind):
         rng = self.rng
@@ -590,6 +706,34 @@ CORPUS_C04 = [
     'syntax = "proto2";\nenum E { A = 1; }\nmessage M { map<int32, E> m = 1; }\n',
     # overrides at every legal level, four levels deep
     'edition = "2023";\noption features.field_presence = IMPLICIT;\noption features.repeated_field_encoding = EXPANDED;\noption features.enum_type = CLOSED;\noption features.json_format = LEGACY_BEST_EFFORT;\nmessage A {\n  option features.json_format = ALLOW;\n  message B {\n    message C {\n      option features.json_format = LEGACY_BEST_EFFORT;\n      message D {\n        int32 x = 1;\n        int32 y = 2 [features.field_presence = EXPLICIT];\n        repeated int32 z = 3;\n        repeated int32 w = 4 [features.repeated_field_encoding = PACKED];\n        enum E { option features.enum_type = OPEN; Z = 0; }\n        enum F { F1 = 1; }\n        E e = 5;\n        F f = 6 [features.field_presence = LEGACY_REQUIRED];\n        D d = 7 [features.message_encoding = DELIMITED];\n        string s = 8 [features.utf8_validation = NONE];\n      }\n    }\n  }\n}\n',
+]
+
+
+# hand-written corpus for C04 only: lookup methods of the list / range views on adversarial declaration orders
+CORPUS_C04_LOOKUPS = [
+    # extension and reserved ranges out of ascending order, adjacent ranges, single numbers, `max`
+    'syntax = "proto2";\npackage lk;\nmessage Ext {\n  optional int32 a = 1;\n  extensions 1000 to 1999, 100 to 199, 500 to 599;\n'
+    '  reserved 50 to 59, 10 to 19, 30;\n  extensions 2000, 200 to 299, 20000 to max;\n  reserved 60, 20 to 29, 9;\n  reserved "zz", "aa", "mm";\n}\n'
+    'message Sorted { extensions 100 to 199, 500 to 599, 1000 to 1999; reserved 10 to 19, 30, 50 to 59; }\n'
+    'message Rev { extensions 7 to 8, 5 to 6, 3 to 4, 1 to 2; }\nmessage Rev2 { reserved 9, 8, 7, 6, 5, 4, 3, 2, 1; }\n'
+    'extend Ext { optional int32 x1999 = 1999; optional int32 x100 = 100; optional int32 x20000 = 20000; optional int32 x536870911 = 536870911; }\n',
+    # fields declared with descending numbers and names, oneof members in between, groups, explicit JSON names
+    'syntax = "proto2";\npackage lk;\nmessage F {\n  optional int32 zeta = 9;\n  oneof o2 { int32 y_y = 8; string x_x = 7 [json_name = "XX"]; }\n'
+    '  optional group Grp = 6 { optional int32 g1 = 1; }\n  repeated int32 beta_gamma = 5;\n  oneof o1 { group OGrp = 4 { optional int32 g2 = 2; } bool b = 3; }\n'
+    '  required string alpha = 1;\n  optional F f = 2 [json_name = "zeta2"];\n  message N2 {} message N1 {} enum E2 { E2_A = 1; } enum E1 { E1_A = 1; }\n'
+    '  extensions 100 to 199;\n  extend F { optional int32 e2 = 150; optional int32 e1 = 100; }\n}\n',
+    # enums: descending and negative values, aliases (ByNumber = first declared), reserved ranges out of order
+    'syntax = "proto2";\npackage lk;\nenum E {\n  option allow_alias = true;\n  C = 5;\n  B = -1;\n  B_ALIAS = -1;\n  A = 0;\n  C_ALIAS = 5;\n'
+    '  reserved 100 to 110, -20 to -10, 50, 2000 to max, -2147483648 to -100, 51 to 52;\n  reserved "ZZ", "AA";\n}\n'
+    'message M { optional E e = 1 [default = B_ALIAS]; optional E e2 = 2 [default = C_ALIAS]; }\n',
+    # proto3 and editions: the same shapes where they are allowed
+    'syntax = "proto3";\npackage lk;\nmessage P3 {\n  reserved 900 to 999, 100, 10 to 20, 536870911;\n  reserved "b", "a";\n  int32 z = 3;\n  oneof o { int32 y = 2; string x = 1; }\n'
+    '  map<string, P3> m = 5;\n  optional int32 opt = 4;\n  enum E { Z = 0; N = -5; reserved 7, 5 to 6, -9 to -8; }\n}\n'
+    'service S2 { rpc B(P3) returns (P3); rpc A(P3) returns (stream P3); }\nservice S1 { rpc A(stream P3) returns (P3); }\n',
+    'edition = "2023";\npackage lk;\nmessage Ed {\n  extensions 1000 to max, 100 to 199;\n  reserved 50 to 59, 10 to 19, 30;\n  reserved b, a;\n'
+    '  Grp grp = 3 [features.message_encoding = DELIMITED];\n  message Grp { int32 x = 1; }\n  int32 c = 2;\n  int32 a_b = 1 [json_name = "AB"];\n'
+    '  enum E { option features.enum_type = CLOSED; V2 = 2; V1 = 1; reserved 9 to 10, 5, -3 to -1; reserved OLD2, OLD1; }\n}\n'
+    'extend Ed { int32 e2 = 150; int32 e1 = 100; Ed e3 = 1000 [features.message_encoding = DELIMITED]; }\n',
 ]
 
 
